@@ -91,7 +91,8 @@ def opRun (j : Json) : Except String Json := do
     | "iter" => pure (.iter (← (← getArrL a "msgs").mapM fun v => v.getStr?))
     | _ => throw "arg kind"
   let replies ← (← getArrL j "replies").mapM fun v => v.getStr?
-  let ops : MsgOps String String := { empty := "{}", ofDict := id, truthy := fun _ => truthy }
+  let empty := (j.getObjVal? "empty" >>= Json.getStr?).toOption.getD "{}"   -- canonical text of the empty request message
+  let ops : MsgOps String String := { empty := empty, ofDict := id, truthy := fun _ => truthy }
   match runCall (ρ := String) pinnedTables n ops fl svc m arg replies with
   | .error e => pure (Json.mkObj [("error", errJson e)])
   | .ok t =>
